@@ -38,13 +38,20 @@ def _verbatim(rep, prog):
                 if cur[1] in words:
                     break
                 defs = [d for d in F.nodes(kind='assign') if d.stmt[1] == cur and F.dominates(d, i)]
+                if not defs:
+                    # the word is produced somewhere this rule does not look (an out-parameter of a helper, a member): undecided
+                    ok, why = None, '`%s` has no visible definition between the extraction and the insert' % cur[1]
+                    break
                 if len(defs) != 1 or defs[0].stmt[2][0] != 'var':
-                    ok, why = False, '`%s` is not a plain copy of the extracted word (%s)' % (cur[1], ir.fmt(defs[0].stmt[2])[:60] if defs else 'no definition')
+                    ok, why = False, '`%s` is not a plain copy of the extracted word (%s)' % (cur[1], ir.fmt(defs[0].stmt[2])[:60])
                     break
                 cur = defs[0].stmt[2]
                 chain.append(cur[1])
             if ok and cur[1] not in words:
-                ok, why = False, '`%s` does not come from the extraction' % v[1]
+                ok, why = None, '`%s` does not visibly come from the extraction' % v[1]
+            if ok is None:
+                rep.cannot_decide('CATALOGUE.verbatim', where(fn, i.line), '%s: %s' % (fn['name'], why))
+                continue
             if ok:
                 src = [node for node, s_, vs in ex if cur[1] in vs and F.dominates(node, i)]
                 start = src[-1] if src else None
@@ -59,8 +66,15 @@ def _verbatim(rep, prog):
                         ok, why = False, 'line %d: `%s` may modify `%s` before it is inserted' % (m.line, ir.fmt_stmt(m.stmt)[:60], ', '.join(sorted(names)))
             rep.add('CATALOGUE.verbatim', '%s:%s' % (fn['name'], v[1]), where(fn, i.line), '%s inserts the extracted word unchanged (%s)' % (fn['name'], ' <- '.join(chain)),
                     ok, why)
-    if n < 2:
-        raise AnalysisBroken('fewer than 2 catalogue insert sites found in the isotope-list loaders')
+    # both catalogues are covered: each of the two list initialisers holds a verified insert site or calls a function that does
+    site_fns = {i.key.split(':')[0] for i in rep.instances if i.rule == 'CATALOGUE.verbatim'}
+    inits = [f for k_, f in prog.functions.items() if f['name'] in ('_init_dbd_isotopes', '_init_background_isotopes')]
+    covered = 0
+    for f in inits:
+        if f['name'] in site_fns or any(c['callee']['qn'].split('::')[-1] in site_fns for c in astu.calls(f['body'])):
+            covered += 1
+    if not ((len(inits) == 2 and covered == 2) or n >= 2):
+        raise AnalysisBroken('the isotope-list loaders: insert sites found for %d of the two catalogues (%d site(s))' % (covered, n))
 
 
 def tv_pure(name):
